@@ -222,12 +222,26 @@ class Model:
             for (k2, val) in self._cell_store_values(op, ck[0]):
                 if val is None:
                     continue
-                for h in self.hs_payload_of(val):
+                top = val
+                while top[0] == "agg" and top[2] == "Option::Some" and top[3]:
+                    top = top[3][0]
+                if top[0] == "agg" and top[1] == "closure":
+                    if top[2] in P.bodies and not P.bodies[top[2]].is_handler():
+                        contents.add("THUNK")
+                    else:
+                        contents.add("HANDLER")
+                    continue
+                if top[0] == "field" and top[1][0] == "downcast" and top[1][2] == "Handshake" and top[1][1][0] == "param":
+                    r = op.roles.get(top[1][1][1])
+                    contents.add("SINK" if r == "ROOT" else "UPTB")
+                    continue
+                if top[0] == "agg" and top[2] == "Option::None":
+                    continue
+                if top[0] in ("call", "agg") and not self.hs_payload_of(top):
+                    continue      # an empty / fresh container (share's `vec![]`), not a peer
+                for h in self.hs_payload_of(top):
                     r = op.roles.get(h)
                     contents.add("SINK" if r == "ROOT" else "UPTB")
-                for x in walk(val):
-                    if x[0] == "agg" and x[1] == "closure" and x[2] in P.bodies and not P.bodies[x[2]].is_handler():
-                        contents.add("THUNK")
             if contents == {"UPTB"}:
                 return ("UPTB", ("cell", ck))
             if contents == {"SINK"}:
